@@ -170,9 +170,24 @@ PROPS = {
         trusted=[T_CRYPTO, "yaml.v3", T_FS],
         partial=["freshness / unpredictability of salts (crypto/rand) is observed (pairwise distinct within a run), not proved"],
     ),
+    "C17": dict(
+        modules=["Whawty.Props.C17"],
+        suites=[("overlay", "v17")],
+        level_text="The policy gate in front of init/add/update is modelled with the zxcvbn estimate as a parameter: "
+                   "store_change_implies_policy, refusal_changes_nothing, policy_ok_not_refused; condition_parser_exact "
+                   "characterises newZXCVBNPolicy; bad_policy_stops_agent. Against the code: the real parser and "
+                   "NewStore on ~500 condition strings x 5 policy types; all write paths (agent interface, HTTP add, "
+                   "HTTP update by admin / by the user's session / by old password, CLI binary add/update/init) on real "
+                   "agents with thresholds placed around the observed estimate, compared with zxcvbn-go called directly.",
+        rule="Condition strings from a grammar mutator (kinds, operators, thresholds incl. 2^64-1/2^64/negative/float, "
+             "ASCII white-space variants, extra fields); 6 (40) agents x 60 (300) writes of 26 passwords (dictionary "
+             "words, user-name derived, strong) through 10 write paths.",
+        trusted=["zxcvbn-go's estimate (score, entropy, crack time) is a parameter of the model", T_CRYPTO],
+        partial=["strings.Fields splits on Unicode white space; the model (and the generator) use ASCII white space"],
+    ),
     "C18": dict(
         modules=["Whawty.Props.C18"],
-        suites=[("hdrv", "c18")],
+        suites=[("hdrv", "c18"), ("overlay", "v18")],
         level_text="loader_exact: the model of fromConfig accepts exactly the well-formed decoded configurations; accepted "
                    "argon2id / scrypt sets lie inside the primitives' domains (repaired constructor). Generated YAML "
                    "documents (mutations of valid ones) are loaded with store.NewDirFromConfig and compared with the "
@@ -181,7 +196,9 @@ PROPS = {
              "three levels, numeric edge values (0,1,31,32,255,256,2^32-1,2^32,2^64-1,2^64,-1,1.5,strings,lists,maps), "
              "both/no algorithm, HMAC key variants, duplicate ids and top-level keys, default 0/missing/undefined.",
         trusted=["yaml.v3 (KnownFields) decides decodability: modelled as an interface", T_CRYPTO],
-        partial=["reload all-or-nothing (SIGHUP) is decided by the agent harness (section C18 reload), see suite agent-c18",
+        partial=["reload all-or-nothing is decided by the run (real SIGHUPs to a real agent, 12 kinds of new "
+                 "configuration, clients in flight): the swap is a single pointer assignment in the code, which the model "
+                 "does not add anything to",
                  "memory exhaustion for huge cost/memory values is a run-time fact outside the model"],
     ),
     "C15": dict(
@@ -233,6 +250,24 @@ PROPS = {
                  "taken to be finite", "non-interference between connections is observed (distinct logins, concurrent "
                  "batches), not proved about the Go scheduler"],
         assumptions=["client streams are finite"],
+    ),
+    "C19": dict(
+        modules=["Whawty.Props.C19"],
+        suites=[("overlay4", "v19")],
+        level_text="HooksCaller.run is a timed transition system: the timer is armed exactly while notifications are "
+                   "pending (invariant over all event sequences), no_change_unnotified, burst_coalesced (no round before "
+                   "the armed deadline, then exactly one trailing round), race_both_orders, eligibility_exact, "
+                   "notify_only_on_success (dispatcher model), hookLogOk_sound. Real HooksCaller instances with a 400 ms "
+                   "rate limit run real hook scripts that log time stamp, argv and WHAWTY_AUTH_STORE; the verified "
+                   "checker judges the real log, the model predicts the number of rounds, and every file-type x "
+                   "permission class is tried; notifications through a real agent for successful and failed operations.",
+        rule="Timing patterns 0/1/2/many notifications per interval, bursts, two intervals, notifications within +-20 ms of "
+             "the timer, random gaps; hooks directories 0755/0700/0775/0777/0757/0752 x 16 entries (regular 0755..0000, "
+             "single execute bits, hidden, setuid, symlinks to executable / non-executable / missing targets, hidden "
+             "symlink, sub-directory); agent operations add/update/set-admin/remove succeeding and failing; thorough: a "
+             "hanging hook is observed to be killed after the one-minute limit while the agent answers.",
+        trusted=["real time, process start latency (tolerance 150 ms), /bin/sh and date in the hook scripts"],
+        partial=["the one-minute kill and 'never delays the agent' are run-time facts observed in the thorough tier only"],
     ),
     "C20": dict(
         modules=["Whawty.Props.C20"],
@@ -290,6 +325,23 @@ PROPS = {
         trusted=[T_GO, T_CRYPTO, "logical clocks (one atomic counter) for invocation / response order"],
         partial=["linCheck_complete (no linearizable history is rejected) is not proved; a rejection is reported as a "
                  "correspondence disagreement", "cross-talk between SASL connections is covered by C05's concurrent batches"],
+    ),
+    "C12": dict(
+        modules=["Whawty.Props.C12"],
+        suites=[("overlay", "v12")],
+        level_text="upgradeable_iff (reported upgradeable exactly when the record's parameter set differs from the "
+                   "default), upgrade_same_password (the repaired upgrade step = re-authenticate, then update: the record is "
+                   "untouched or rewritten under the default set with exactly the same accepted passwords, admin flag "
+                   "and — with C15 — auxiliary lines; other users untouched), converges, failed logins and mode off "
+                   "never write: Lean theorems over the store model and the dispatcher model. Real agents in modes off / "
+                   "local / remote (second in-process agent as master) are driven through logins; every observed "
+                   "rewrite is compared with the model's update.",
+        rule="24 (300) agents: default set 1 or 2 (scrypt / argon2id), records of four users re-hashed under the other "
+             "set at random, auxiliary data of three shapes attached, optional zxcvbn policy that one user's password "
+             "fails; 8 logins each with right / wrong passwords; the directory is polled on the otherwise idle agent; "
+             "digests recomputed with x/crypto.",
+        trusted=[T_CRYPTO, T_GO, "zxcvbn-go"],
+        partial=["'on an otherwise idle agent the rewrite does happen' is observed with a 400 ms wait (scheduling), not proved"],
     ),
     "C13": dict(
         modules=["Whawty.Props.C13"],
@@ -518,7 +570,11 @@ def run_overlay(suite, tier, seed, workdir, filt, nshards=None):
         os.remove(op)
 
 
-RUNNERS = {"hdrv": run_hdrv, "hdrv+pam": run_hdrv_pam, "overlay": run_overlay}
+def run_overlay4(suite, tier, seed, workdir, filt):
+    yield from run_overlay(suite, tier, seed, workdir, filt, nshards=4)
+
+
+RUNNERS = {"hdrv": run_hdrv, "hdrv+pam": run_hdrv_pam, "overlay": run_overlay, "overlay4": run_overlay4}
 
 
 def run_suite(prop, tier, seed, workdir, filt=None):
